@@ -510,6 +510,7 @@ type vkSysCand struct {
 	pre    vkState
 	wlPath string
 	kind   string
+	shape  string // kind + the set of named crash points the operation passed (which sub-plans it executed)
 	sites  [][2]interface{}
 	err    error
 }
@@ -994,7 +995,13 @@ func TestVerifCrash(t *testing.T) {
 				kb, _ := json.Marshal([]interface{}{wl.Cfg, states[i], st})
 				if key := sha1.Sum(kb); !seenSys[key] {
 					seenSys[key] = true
-					sysCands = append(sysCands, vkSysCand{wl: wl, opIdx: i, pre: states[i], wlPath: wlPath, kind: vStr(st, "a")})
+					hn := make([]string, 0, len(hits))
+					for name := range hits {
+						hn = append(hn, name)
+					}
+					sort.Strings(hn)
+					sysCands = append(sysCands, vkSysCand{wl: wl, opIdx: i, pre: states[i], wlPath: wlPath, kind: vStr(st, "a"),
+						shape: vStr(st, "a") + "|" + strings.Join(hn, ",")})
 				}
 			}
 			names := make([]string, 0, len(hits))
@@ -1055,15 +1062,21 @@ func TestVerifCrash(t *testing.T) {
 	// traced once (which file-system calls does the operation make?), then the worker is killed
 	// right after each of them - boundaries the code has no named crash point for
 	if sysMax > 0 {
-		perKind := map[string]int{}
+		// operations are sampled per SHAPE - the kind of the operation and the set of named crash
+		// points it passes, i.e. which sub-plans it executes (roll, epoch flush, whole-segment delete,
+		// rewrite + Replace, compaction that empties a segment, ...): a sample per kind alone is
+		// dominated by the cheap shapes (a truncation that removes nothing, a clean without work)
+		perShape := map[string]int{}
 		sel := []*vkSysCand{}
 		for i := range sysCands {
 			c := &sysCands[i]
-			if perKind[c.kind] < sysPerKind {
-				perKind[c.kind]++
+			if perShape[c.shape] < sysPerKind {
+				perShape[c.shape]++
 				sel = append(sel, c)
 			}
 		}
+		stats["sys_shapes"] = len(perShape)
+		stats["sys_operations"] = len(sel)
 		cch := make(chan int)
 		var cwg sync.WaitGroup
 		for w := 0; w < par; w++ {
@@ -1082,6 +1095,11 @@ func TestVerifCrash(t *testing.T) {
 		cwg.Wait()
 		// round-robin over the operations so that the budget is spread over all kinds
 		nsys := 0
+		for _, c := range sel {
+			if c.err == nil {
+				stats["sys_sites"] += len(c.sites)
+			}
+		}
 		for round := 0; nsys < sysMax; round++ {
 			any := false
 			for _, c := range sel {
